@@ -99,6 +99,19 @@ class World:
         self.fis.append(fi)
         return fi
 
+    def add_tenant(self, base, tenant, name, index, same_svc):
+        """another institution behind the *same* profile URL as `base` (a processor hosting several): told apart
+        only by <FI><ORG>/<FID> of the request"""
+        scheme, host, port, target = peers.url_parts_q(base.prof_url)
+        svc = base.prof_url if same_svc else f"{scheme}://{host.lower()}:{port}/ofx/tenant-{name}"
+        fi = peers.SimFI(self.sim, self.net, name, base.prof_url, svc, cookies=base.cookies, form=base.form,
+                         pretty=base.pretty, tenant=tenant)
+        fi.index = index
+        fi.msgsets = base.msgsets
+        fi.new_profile()
+        self.fis.append(fi)
+        return fi
+
     def draw_fi_urls(self, n):
         """n distinct indices into PROF_URLS"""
         out = []
